@@ -348,7 +348,7 @@ func (g registry) ModulePackageSourceAddr(ctx context.Context, pkgAddr regaddr.M
 		}
 		for _, rv := range r.sc.Regs[i].Versions {
 			v, err := versions.ParseVersion(rv.V)
-			if err == nil && v.Same(version) {
+			if err == nil && v == version {
 				src, err := sourceaddrs.ParseRemoteSource(rv.Source)
 				if err != nil {
 					c.Result = "bad-source"
